@@ -135,3 +135,13 @@ func init() {
 		Bounds: map[string]interface{}{"prefix_len": "0..9 bytes quick, 0..12 thorough, every byte value (superset of the five-letter alphabet)", "after_header": "3 arbitrary trailing bytes", "nosig_stream_len": "<= 34 quick / 37 thorough, every length and terminal error", "outside": "prefixes longer than the bound (the 1-or-2-byte advance loop is position independent but that is not proved here)"},
 	})
 }
+
+func init() {
+	register(&CheckDef{ID: "C01", Level: "model_checking", Timeout: [2]int{500, 3000},
+		Assumptions: []string{
+			"input stream model zzMemReader: delivers data[:L] (every truncation point) then io.EOF or an injected error",
+			"bufio.Reader, encoding/binary, io.LimitReader interpreted from their real SSA; sync.Pool.Get returns New(); zerolog at the default (panic) level; errors/fmt opaque",
+		},
+		Bounds: map[string]interface{}{"see": "per-harness bounds in harness_runs and DESIGN.md section 8 C01"},
+	})
+}
